@@ -143,17 +143,32 @@ def impl_forkexec(case):
             second = f"pass={_csv(cap['pass'])} child={_csv(cap['child'])}"
         except ValueError:
             second = f"pass={_csv(cap.get('pass', []))} ValueError"
+        if case.get("parent2") is not None:
+            # a later worker of the same executor (respawn, resize): same env= object, the parent's environment
+            # has changed in between
+            first_env = cap.get("env")
+            FE.os = _OsProxy(os, environ=dict(case["parent2"]))
+            try:
+                FE.fork_exec(["py", "-m", "x"], [], env=env_arg)
+                cap["env2"], cap["env"] = cap.get("env"), first_env
+            except ValueError:
+                cap["env2"], cap["env"] = None, first_env
     finally:
         FE.os = saved_os
         if saved_mod is not None:
             sys.modules["_posixsubprocess"] = saved_mod
         else:
             sys.modules.pop("_posixsubprocess", None)
-    ents = []
-    for b in cap.get("env") or []:
-        k, _, v = bytes(b).partition(b"=")
-        ents.append(_hx(k) + "=" + _hx(v))
-    return [_csv(ents), second + ("" if cap.get("close") is True else f" close_fds={cap.get('close')!r}")]
+    def ents_of(envlist):
+        ents = []
+        for b in envlist or []:
+            k, _, v = bytes(b).partition(b"=")
+            ents.append(_hx(k) + "=" + _hx(v))
+        return _csv(ents)
+    outs = [ents_of(cap.get("env")), second + ("" if cap.get("close") is True else f" close_fds={cap.get('close')!r}")]
+    if case.get("parent2") is not None:
+        outs.append(ents_of(cap.get("env2")))
+    return outs
 
 
 # ------------------------------------------------------------------------------- E2: _launch
@@ -453,6 +468,8 @@ class SpawnPart(E2Prop):
             cs.append({"kind": "forkexec", "parent": P, "overlay": ov, "keep": [12, 7, 10, 4, 6], "table": tbl,
                        "int_values": ["N"] if ov and ov[0][0] == "N" else []})
         cs.append({"kind": "forkexec", "parent": [], "overlay": None, "keep": [7, 10], "table": tbl, "int_values": []})
+        cs.append({"kind": "forkexec", "parent": [["A", "1"], ["GONE", "1"]], "overlay": [["OV", "1"]], "keep": [7], "table": tbl,
+                   "int_values": [], "parent2": [["A", "2"], ["NEW", "3"]]})
         cs.append({"kind": "forkexec", "parent": [], "overlay": [["ONLY", "1"]], "keep": [], "table": tbl, "int_values": []})
         cs.append({"kind": "forkexec", "parent": P, "overlay": [["A", "2"]], "keep": [12, 12, 7], "table": tbl, "int_values": []})
         cs.append({"kind": "forkexec", "parent": P, "overlay": [["A", "0"]], "keep": [900, 4], "table": tbl, "int_values": [],
@@ -531,8 +548,17 @@ class SpawnPart(E2Prop):
             if rng.random() < 0.05:
                 keep.append(rng.randint(3, 1200))      # not open in the parent
             rng.shuffle(keep)
-            return {"kind": "forkexec", "parent": parent, "overlay": overlay, "keep": keep, "table": table,
+            case = {"kind": "forkexec", "parent": parent, "overlay": overlay, "keep": keep, "table": table,
                     "int_values": ints, "via_process": rng.random() < 0.9}
+            if rng.random() < 0.35:
+                p2 = [list(kv) for kv in parent if rng.random() < 0.7]
+                for kv in p2:
+                    if rng.random() < 0.4:
+                        kv[1] = kv[1] + "x"
+                if rng.random() < 0.6:
+                    p2.append(["LATER_" + str(rng.randint(0, 9)), str(rng.randint(0, 99))])
+                case["parent2"] = p2
+            return case
         nd = rng.choice([0, 0, 1, 1, 2, 3, 4])
         dups = [{"inh": rng.randint(0, 1), **({"num": rng.randint(20, 900)} if rng.random() < 0.5 else {})} for _ in range(nd)]
         if dups and rng.random() < 0.06:
@@ -609,7 +635,10 @@ class SpawnPart(E2Prop):
             par = _csv(_hx(a) + ":" + _hx(b) for a, b in case["parent"])
             ov = "none" if case["overlay"] is None else _csv(_hx(a) + ":" + _hx(b) for a, b in case["overlay"])
             tbl = _csv(f"{a}:{b}" for a, b in case["table"])
-            return [f"env {par} {ov}", f"forkexec 1 {_csv(case['keep'])} {tbl}"]
+            lines = [f"env {par} {ov}", f"forkexec 1 {_csv(case['keep'])} {tbl}"]
+            if case.get("parent2") is not None:
+                lines.append(f"env {_csv(_hx(a) + ':' + _hx(b) for a, b in case['parent2'])} {ov}")
+            return lines
         if k == "launch":
             obs = json.loads(out[2][4:])
             proc = {"default": "ctor:none", "ctor0": "ctor:0", "ctor1": "ctor:1", "initmain": "initmain", "noattr": "attr:none"}.get(
@@ -764,6 +793,18 @@ class SpawnPart(E2Prop):
             if got != exp:
                 diff = {a: (got.get(a), exp.get(a)) for a in set(got) | set(exp) if got.get(a) != exp.get(a)}
                 return f"child environment differs from parent overlaid with env= (key: got, expected): {diff}"
+            if case.get("parent2") is not None and len(out) > 2:
+                exp2 = dict(dict(case["parent2"]))
+                exp2.update(ov)
+                got2 = {}
+                if out[2] != "-":
+                    for e in out[2].split(","):
+                        a, b = e.split("=")
+                        got2[bytes.fromhex(a[1:]).decode()] = bytes.fromhex(b[1:]).decode()
+                if got2 != exp2:
+                    diff = {a: (got2.get(a), exp2.get(a)) for a in set(got2) | set(exp2) if got2.get(a) != exp2.get(a)}
+                    return ("a later worker started with the same env= mapping does not get the parent's *current* environment "
+                            f"overlaid with env= (key: got, expected): {diff}")
             keep = case["keep"]
             if out[1].endswith("ValueError") or "ValueError" in out[1]:
                 if len(set(keep)) == len(keep):
